@@ -14,7 +14,7 @@ RULE = ('(policy, peer) pairs evaluated by the real Policy.evaluate on a real SS
         '(kex universe contains the strict-kex marker), all 4 flag combinations, all 16 optional-host-key subsets, size/CA/modulus maps over {absent,1024,2048,3072,4096}, '
         'field pairs jointly over a reduced universe, random large instances over database names, and policy files run through the CLI (-P) against scripted peers; '
         'a case (batch) is non-trivial when it contained at least one passing and one failing pair; distinct = distinct batch specifications')
-REQUIRED = {'multi_entry_size_maps': 700, 'other_file_layouts': 500, 'cli_multi_entries': 10, 'evaluations': 20000, 'model_pass': 500, 'model_fail': 500, 'metamorphic_checks': 200, 'cli_runs': 20}
+REQUIRED = {'old_size_directives': 200, 'multi_entry_size_maps': 700, 'other_file_layouts': 500, 'cli_multi_entries': 10, 'evaluations': 20000, 'model_pass': 500, 'model_fail': 500, 'metamorphic_checks': 200, 'cli_runs': 20}
 ASSUMPTIONS = ['don\'t-care where the statement is silent: compression under subset mode; an empty peer list under subset mode (optional host keys give no exemption under subset mode: the statement mentions them for exact mode only)',
                'sizes are compared only for key types / group-exchange names the peer actually presents (nothing to compare otherwise)']
 MANIFEST = {
@@ -116,7 +116,22 @@ LAYOUT_EQS = [' = ', '=', ' =', '= ', '   =\t']
 def rand_layout(rng):
     """Another spelling of the same policy file: the loader trims names, keys and values, ignores blank and comment lines and reads flags case-insensitively."""
     return {'sep': rng.choice(LAYOUT_SEPS), 'eq': rng.choice(LAYOUT_EQS), 'lead': rng.choice(['', '', ' ', '\t']), 'trail': rng.choice(['', '', ' ', ' \t', '\r']), 'comments': rng.random() < .5,
-            'true': rng.choice(['true', 'True', 'TRUE']), 'shuffle': rng.random() < .5, 'seed': rng.randrange(1 << 30)}
+            'true': rng.choice(['true', 'True', 'TRUE']), 'shuffle': rng.random() < .5, 'seed': rng.randrange(1 << 30), 'oldsizes': rng.random() < .4}
+
+
+RSA_CERTS = ('ssh-rsa-cert-v01@openssh.com', 'rsa-sha2-256-cert-v01@openssh.com', 'rsa-sha2-512-cert-v01@openssh.com')
+
+
+def old_format_can_say(sizes):
+    for t, e in sizes.items():
+        if 'hostkey_size' not in e or not isinstance(e['hostkey_size'], int):
+            return False
+        if e.get('ca_key_size'):
+            if e.get('ca_key_type') != ('ssh-rsa' if t in RSA_CERTS else 'ssh-ed25519'):
+                return False
+        elif e.get('ca_key_type'):
+            return False
+    return True
 
 
 def policy_text(pol, name='t'):
@@ -132,9 +147,16 @@ def policy_text(pol, name='t'):
         lines.append(kv('banner', '"%s"' % pol['banner']))
     if pol.get('comp') is not None:
         lines.append(kv('compressions', sep.join(pol['comp'])))
-    if pol.get('sizes'):
+    if pol.get('sizes') and lay.get('oldsizes') and old_format_can_say(pol['sizes']):
+        # the older per-key directives (still read, with a deprecation notice): one hostkey_size_<type> line, followed by a cakey_size_<type> line for a certificate; the CA type is implied by the host-key type
+        for t, e in pol['sizes'].items():
+            lines.append(kv('hostkey_size_' + t, str(e['hostkey_size'])) + ('\n' + kv('cakey_size_' + t, str(e['ca_key_size'])) if e.get('ca_key_size') else ''))
+    elif pol.get('sizes'):
         lines.append(kv('host_key_sizes', json.dumps(pol['sizes'])))
-    if pol.get('dh'):
+    if pol.get('dh') and lay.get('oldsizes'):
+        for a, n in pol['dh'].items():
+            lines.append(kv('dh_modulus_size_' + a, str(n)))
+    elif pol.get('dh'):
         lines.append(kv('dh_modulus_sizes', json.dumps(pol['dh'])))
     if pol.get('optional') is not None:
         lines.append(kv('optional host keys', sep.join(pol['optional'])))
@@ -157,7 +179,10 @@ def real_eval(pol, peer):
     from ssh_audit.ssh2_kex import SSH2_Kex
     from ssh_audit.banner import Banner
     from ssh_audit.outputbuffer import OutputBuffer
-    p = Policy(policy_data=policy_text(pol))
+    import contextlib
+    import io
+    with contextlib.redirect_stdout(io.StringIO()):   # the deprecation notice of the older size directives
+        p = Policy(policy_data=policy_text(pol))
     k = audit.sym_kex(peer['kex'], peer['key'], peer['enc'], peer['mac'], comp=peer['comp'])
     kex = SSH2_Kex.parse(OutputBuffer(), wire.kexinit_payload(k)[1:])
     for t, s in (peer.get('sizes') or {}).items():
@@ -332,6 +357,9 @@ def run_sizes(c):
                 pol['sizes'][t].update({'ca_key_type': pca[0], 'ca_key_size': pca[1]})
         if qs is not None:
             peer['sizes'] = {t: {'hostkey_size': qs, 'ca_key_type': qca[0], 'ca_key_size': qca[1]}}
+        if pol.get('sizes') and old_format_can_say(pol['sizes']) and ((qs or 0) // 1024 + qca[1] // 256) % 2:
+            pol['_layout'] = {'oldsizes': True}
+            st['old_size_directives'] = st.get('old_size_directives', 0) + 1
         passed = compare(pol, peer, viol, st)
         if passed and pol['larger'] and qs is not None:
             for grow in (qs + 64, qs * 2):
@@ -352,6 +380,9 @@ def run_sizes(c):
             pol['sizes'] = {'ssh-rsa': {'hostkey_size': hp}, 'rsa-sha2-512-cert-v01@openssh.com': {'hostkey_size': cp, 'ca_key_type': 'ssh-rsa', 'ca_key_size': cap}}
             peer['sizes'] = {'ssh-rsa': {'hostkey_size': hq, 'ca_key_type': '', 'ca_key_size': 0}, 'rsa-sha2-512-cert-v01@openssh.com': {'hostkey_size': cq, 'ca_key_type': 'ssh-rsa', 'ca_key_size': caq}}
             st['multi_entry_size_maps'] = st.get('multi_entry_size_maps', 0) + 1
+            if (hp + cp // 1024 + caq // 1024) % 2:
+                pol['_layout'] = {'oldsizes': True}
+                st['old_size_directives'] = st.get('old_size_directives', 0) + 1
             compare(pol, peer, viol, st)
     for pd, qd in itertools.product(SIZES, SIZES):
         pol = base_pol(c['flags'])
